@@ -1,4 +1,5 @@
 import PysnarkModel.Lemmas.QaptoolsScope
+import PysnarkModel.Gen.Api
 import PysnarkModel.Lemmas.QaptoolsGlue
 import PysnarkModel.Lemmas.QaptoolsFile
 import PysnarkModel.Lemmas.QaptoolsText
@@ -883,5 +884,13 @@ example :
     (keysOk (s.wires ++ s.ios) &&
      decide ((callsOf C12cfg 0 0 0 ops).map Prod.fst = ["main_0_a", "main_0_a_1_b", "main_2_a_1_b", "main_2_a_1_b_0_"])) = true := by
   first | decide +kernel | fail "names example"
+
+
+/-- **API surface pinned** (regenerated from the source on every run, `Gen/Api.lean`): the functions this property's model
+transcribes are exactly the functions the code has; an added or removed function changes the generated list and this
+obligation fails (the tie is then broken by construction and the check runs its extended search). -/
+theorem C12_api_surface :
+    Gen.api_qaptools_backend = ["init", "inited", "Sig.__init__", "Sig.__str__", "Sig.__add__", "Sig.__sub__", "Sig.__mul__", "Sig.__neg__", "privval", "pubval", "zero", "one", "fieldinverse", "get_modulus", "add_constraint", "prove", "printwire", "printwireout", "enterfn", "continuefn", "for_each_in", "vc_declare_block", "importcomm", "exportcomm", "vc_glue", "subqap"] ∧
+    Gen.api_qapsplit = ["contextualize", "getqap", "qaphash", "qapsplit"] := ⟨rfl, rfl⟩
 
 end Pysnark
